@@ -40,22 +40,23 @@ func clearDiffCheck(path []Op, build func() Inst, depth int, st *Stats) *Viol {
 			inflightSeq.Add(1)
 			x := build().(Box)
 			y := b.Fresh()
-			okx, oky := true, true
-			for _, po := range append(append([]Op{}, prefix...), o) {
-				if v := x.Step(po); v != nil {
-					okx = false
-					if v.Has("C15") {
-						return v
-					}
-					break
-				}
-				if v := y.Step(po); v != nil {
-					oky = false
+			seq := append(append([]Op{}, prefix...), o)
+			oky := true
+			for _, po := range seq {
+				if v := safeStep(y, po, nil); v != nil {
+					oky = false // the fresh container itself misbehaves here: another property's business
 					break
 				}
 			}
-			if !okx || !oky {
+			if !oky {
 				continue
+			}
+			for _, po := range seq {
+				what := x.Describe(po)
+				if v := safeStep(x, po, nil); v != nil {
+					// the same operations are fine on a fresh container: the emptied one differs
+					return viol(p, v.Class, "an emptied %s does not behave like a fresh one: after %v, %s fails on the emptied container (and not on a fresh one): %s", b.ContainerName(), seq, what, v.Msg)
+				}
 			}
 			st.Nested["differential_continuations"]++
 			if a, f := fullObs(x), fullObs(y); a != f {
